@@ -44,7 +44,9 @@ class Net:
         out = []
         for ip in ent:
             if ":" in ip:
-                out.append((_real_socket.AF_INET6, _real_socket.SOCK_STREAM, 6, "", (ip, port, 0, 0)))
+                # "fe80::1%3": a link-local address on interface 3 (the scope id is the fourth element of the sockaddr)
+                ip6, _, scope = ip.partition("%")
+                out.append((_real_socket.AF_INET6, _real_socket.SOCK_STREAM, 6, "", (ip6, port, 0, int(scope or 0))))
             else:
                 out.append((_real_socket.AF_INET, _real_socket.SOCK_STREAM, 6, "", (ip, port)))
         return out
@@ -102,7 +104,7 @@ class NetSock(FakeSock):
         self._tick()
         if self.closed:
             raise OSError(errno.EBADF, "Bad file descriptor")
-        key = (address[0], address[1])
+        key = (address[0] + (f"%{address[3]}" if len(address) > 3 and address[3] else ""), address[1])
         outcome = self.net.endpoint.get(key, self.net.default_outcome)
         self.net.attempts.append(
             {"addr": key, "family": self.family, "timeout": self.timeout, "opts": list(self.opts), "outcome": outcome, "sock": self}
